@@ -11,11 +11,13 @@
  S5 R-IDX    _updateStateWithJump uses column idx of the state-change matrix
  S6 R-SLOT   return arities agree with unpack sites (three named exceptions)
 """
-from ..rules import step as S
+from ..rules import stepx as X
+from ..rules import model as M
 from ..rules.shape import check_shapes
 
-TECHNIQUE = ("static analysis: typestate/dominance over the CFG of _jump (record only under success), provenance of "
-             "recorded values to stepper result slots, abstract evaluation of the per-event step, arity agreement, shape inference")
+TECHNIQUE = ("static analysis by abstract interpretation: SimulateOde._jump and the steppers it calls are interpreted by the checker "
+             "(syntax tree, concrete array model instead of numpy, scripted stand-ins for the random draws) on a finite set of small models "
+             "and compared record by record with the walk the property defines; finite evaluation of the limit test over all bound shapes; shape inference")
 
 
 def check(repo, res, tier):
@@ -27,14 +29,16 @@ def check(repo, res, tier):
     res.s_clauses = ["S1 R-SHAPE(vMat)", "S2 R-STEP(_jump, steppers)", "S3 R-FR(one-hot)", "S4 R-STEP(tau count/update)", "S5 R-IDX(column)", "S6 R-SLOT(arity)"]
     res.n_clauses = ["positivity of drawn waiting times and integrality of Poisson draws (numpy)",
                      "termination time of a run", "python-float t0 (`self._t0.tolist()`): input type outside the quantifier"]
-    ctx = S.Ctx(repo)
+    res.rule("R-WALK", "the recorded path (states, per-step counts, times, steps) equals the walk defined by the model: start at (x0, t0); exact mode: one "
+             "exponential clock per positive-rate event, earliest fires, one-hot count; tau mode: Poisson counts with mean tau*rate, state += V*counts + drift*tau; "
+             "a step leaving the limits is rejected and replaced by a single reaction from the unchanged state; the run ends when that is impossible, no event can fire or the horizon is passed")
     check_shapes(repo, res, {"vMat"}, {"vMat": "a single event or a single state: _updateStateWithJump indexes state_change_mat[:, idx]"})
-    S.check_update(ctx, res)
-    S.check_checkjump(ctx, res, boundary=True)
-    S.check_first_reaction(ctx, res)
-    S.check_tau_leap(ctx, res)
-    S.check_arity(ctx, res)
-    S.check_jump(ctx, res)
+    X.check_update(repo, res)
+    X.check_checkjump(repo, res)
+    X.check_newjumptimes(repo, res)
+    n = X.check_walks(repo, res)
+    res.floor("walk scenarios interpreted", n, 15)
     from ..rules.sweep import gate_call_arity
     gate_call_arity(repo, res, {"pygom/model/stochastic_simulation.py", "pygom/model/simulate.py"})
-    res.observe("SimulateOde._jump calls self._t0.tolist(): a python float initial time raises AttributeError (type-of-input issue, not gated)", ctx.jump, ctx.jump.node)
+    jf = repo.resolve_method(M.sim_class(repo), "_jump")
+    res.observe("SimulateOde._jump calls self._t0.tolist(): a python float initial time raises AttributeError (type-of-input issue, not gated)", jf, jf.node)
